@@ -266,6 +266,19 @@ def run(pid, tier, replay=None):
                          "predicted": {"out": p["out"], "st": p["st"]},
                          "observed": {"stdout": r.get("stdout", "")[:3000], "stderr": r.get("stderr", "")[-1500:],
                                       "status": r["status"], "panic": r.get("panic", "")}})
+    if pid == "C10" and not replay:
+        # design level: the forwarding model with the equality / hash the tree implements (follow the chain / constant
+        # per kind) keeps identity and map lookups under every interleaving of growth, partial rewriting and aliasing;
+        # the two other mode pairs are the pinned tree's defect and the seeded change C10-m2 (TLC refutes both)
+        r = vlib.tlc("ListFwd", "MC_ListFwd_fwd_kind", workers=2, timeout=900)
+        if "No error has been found" not in r["out"]:
+            if "is violated" in r["out"]:
+                v.violation("ListFwd.tla: identity contract violated by the (fwd, kind) design", {"tlc": r["out"][-3000:]})
+            else:
+                raise vlib.ToolError("TLC on ListFwd.tla did not complete:\n" + r["out"][-1500:])
+        v.cov["states"] += r["distinct"]
+        v.cov["transitions"] += r["states"]
+        v.notes["listfwd_design_states"] = r["distinct"]
     if pid in UNWIND_PIDS:
         # every run's frame / handler / nested loop events against the contract Unwind.tla
         byid = {vc["id"] + "|" + vc["_rep"]: vc for vc in vmcases}
